@@ -79,6 +79,24 @@ Ite(s, g, u, v) ==
             w == FindOrAdd(q.s, z, p.r, q.r)
         IN [s |-> [w.s EXCEPT !.cache = @ @@ (key :> w.r)], r |-> w.r]
 
+(* The way the drivers (and most users) build a given function: Shannon
+   expansion over the variables in declaration order, `var` + `ite` per
+   level (harness/drivers/history.py build_tt; what add_expr of a DNF does).
+   One model action, so that rich operands exist at depth 1. *)
+RECURSIVE BuildRec(_, _, _)
+BuildRec(s, k, F) ==     \* k: variable number (position in s.names)
+  LET n == NV(s) IN
+  IF F = Univ(n) THEN [s |-> s, r |-> 1]
+  ELSE IF F = {} THEN [s |-> s, r |-> -1]
+  ELSE LET F0 == {a \in Univ(n) : SetBit(a, k, FALSE) \in F}
+           F1 == {a \in Univ(n) : SetBit(a, k, TRUE) \in F}
+       IN IF F0 = F1 THEN BuildRec(s, k + 1, F)
+          ELSE LET lo == BuildRec(s, k + 1, F0)
+                   hi == BuildRec(lo.s, k + 1, F1)
+                   x == FindOrAdd(hi.s, LevelOf(hi.s, s.names[k]), -1, 1)
+               IN Ite(x.s, x.r, hi.r, lo.r)
+BuildTT(s, F) == BuildRec(s, 1, F)
+
 (* collect_garbage(roots): pop an unused node, delete it, decref its
    children, add those that reach zero; finally reset the computed table *)
 RECURSIVE GCLoop(_, _)
